@@ -9,6 +9,7 @@ mod c10;
 mod c11;
 mod c12;
 mod c13;
+mod c17;
 mod c19;
 mod jose_util;
 mod rng;
@@ -27,6 +28,7 @@ fn run_line(prop: &str, line: &str) -> String {
     "C11" => c11::run(args),
     "C12" => c12::run(args),
     "C13" => c13::run(args),
+    "C17" => c17::run(args),
     "C19" => c19::run(args),
     _ => "bad-request".to_string(),
   });
@@ -55,6 +57,7 @@ fn main() {
         "C11" => c11::gen(thorough, seed, &mut out),
         "C12" => c12::gen(thorough, seed, &mut out),
         "C13" => c13::gen(thorough, seed, &mut out),
+        "C17" => c17::gen(thorough, seed, &mut out),
         "C19" => c19::gen(thorough, seed, &mut out),
         _ => {
           eprintln!("unknown property");
